@@ -40,7 +40,7 @@ def run():
             if noct:
                 env['CARGO_CFG_HTTPARSE_DISABLE_SIMD_COMPILETIME'] = '1'
             cmd = ['cargo', 'check', '--lib', '--offline', '--quiet'] + ([] if std else ['--no-default-features'])
-            p = subprocess.run(cmd, cwd=snap, env=env, capture_output=True, text=True)
+            p = subprocess.run(cmd, cwd=snap, env=env, capture_output=True, text=True, errors="replace")
             errs = [l for l in p.stderr.split('\n') if l.startswith('error')]
             return dict(obligation='build:' + name, status='pass' if p.returncode == 0 else 'fail', detail='' if p.returncode == 0 else ('; '.join(errs[:4]) or p.stderr[-600:]),
                         cmd=' '.join(('%s=%s' % (k, env[k]) for k in ('RUSTFLAGS', 'CARGO_CFG_HTTPARSE_DISABLE_SIMD', 'CARGO_CFG_HTTPARSE_DISABLE_SIMD_COMPILETIME') if k in env)) + ' ' + ' '.join(cmd))
